@@ -28,10 +28,12 @@ pub mod name_standin_w {
                 n < self.offsets().len() ==> r@ == self.wire().subrange(0, self.offsets()[n as int] as int),
         { unimplemented!() }
 
+        pub uninterp spec fn root_spec() -> &'static Name;
+
         /// `Name::root()`: the name consisting of the null label only.
         #[verifier::external_body]
         pub fn root() -> (r: &'static Name)
-            ensures r.wire() == seq![0u8], r.offsets() == seq![0u8],
+            ensures r == Self::root_spec(), r.wire() == seq![0u8], r.offsets() == seq![0u8], r.wf(),
         { unimplemented!() }
     }
 
